@@ -216,7 +216,7 @@ def is_whole_ticks(v):
 def denote_track(kind, payload, rep):
     """-> dict(ons, offs, names, sigs, program, flat) in absolute ticks; `flat` is the C17 view:
     [(ticks, frozenset of (pitch, ch, vel))] per entry, rests as empty sets"""
-    ons, offs, names, sigs, flat = [], [], [], [], []
+    ons, offs, names, sigs, flat, tempos = [], [], [], [], [], []
     t = 0
     first_ch = None
     for _ in range(rep + 1):
@@ -233,8 +233,11 @@ def denote_track(kind, payload, rep):
             names.append(payload[0])
         for key, count, unit, entries in bars:
             sigs.append((count, unit.bit_length() - 1) + key_sig(key))
-            for v, ns in entries:
+            for e_ in entries:
+                v, ns = e_[0], e_[1]
                 d = tick_of(v)
+                if len(e_) > 2 and ns:
+                    tempos.append((t, 60000000 // e_[2]))      # a container carrying a bpm attribute: tempo change where it starts
                 flat.append((d, frozenset((pitch(n) + 12, n[2], n[3]) for n in (ns or []))))
                 for n in ns or []:
                     if first_ch is None:
@@ -244,7 +247,7 @@ def denote_track(kind, payload, rep):
                 t += d
     instr = payload[1] if kind not in ("note", "nc", "bar") else None
     return dict(ons=sorted(ons), offs=sorted(offs), names=names, sigs=sigs,
-                program=None if instr is None or first_ch is None else (first_ch, instr), flat=flat)
+                program=None if instr is None or first_ch is None else (first_ch, instr), flat=flat, tempos=tempos)
 
 # ------------------------------------------------------------------ generators
 
